@@ -325,6 +325,11 @@ impl Replayer {
         false
     }
 
+    /// The executor for callers outside the replayer (the random driver): no expected values are known.
+    pub fn exec_pub(&mut self, a: &str, p: &String, args: &Value, out: &Value, want: &str) -> (String, bool) {
+        self.exec(a, p, args, out, want)
+    }
+
     /// Execute one API call; returns the outcome class and whether the member changed epoch.
     fn exec(&mut self, a: &str, p: &String, args: &Value, out: &Value, want: &str) -> (String, bool) {
         let p = p.clone();
@@ -414,12 +419,14 @@ impl Replayer {
             "DsChoose" => { "ok".to_string() }
             "ApplyDetached" => {
                 let n = u(&args, "commit") as usize;
-                let sec = self.w.detached.remove(&(p.clone(), n));
+                // the application keeps the secrets of a detached commit until it has been applied (a failed
+                // attempt -- storage error, stale commit -- does not consume them)
+                let sec = self.w.detached.get(&(p.clone(), n)).cloned();
                 let g = self.w.parties.get_mut(&p).unwrap().group.as_mut().unwrap();
                 match sec {
                     None => "err:no-secrets".into(),
                     Some(sec) => match g.apply_detached_commit(sec) {
-                        Ok(_) => { epoch_changed = true; "ok".into() }
+                        Ok(_) => { epoch_changed = true; self.w.detached.remove(&(p.clone(), n)); "ok".into() }
                         Err(e) => classify(&e),
                     },
                 }
@@ -549,7 +556,7 @@ impl Replayer {
                 let mut res = Err("no welcome for this key package".to_string());
                 let tree_bytes = ce.tree.clone();
                 let my_ref = self.w.kps[kpi - 1].store_id.clone();
-                for wmsg in ce.output.welcome_messages.iter() {
+                for wmsg in ce.welcomes.iter() {
                     // the Welcome that names this key package (single or per-member Welcome messages)
                     if !my_ref.is_empty() && !wmsg.welcome_key_package_references().iter().any(|r| r.to_vec() == my_ref) {
                         continue;
@@ -580,6 +587,61 @@ impl Replayer {
                         "ok".into()
                     }
                     Err(e) => e,
+                }
+            }
+            "ExternalCommit" => {
+                let from = s(&args, "from").to_string();
+                let resync = args.get("resync").and_then(|b| b.as_bool()).unwrap_or(false);
+                let old_leaf = u(&args, "oldLeaf") as u32;
+                let (gi, tree, base_epoch) = {
+                    let g = self.w.parties[&from].group.as_ref().unwrap();
+                    let in_ext = self.w.opts.ratchet_tree_ext;
+                    (g.group_info_message_allowing_ext_commit(in_ext), if in_ext { None } else { Some(g.export_tree().into_owned()) }, g.current_epoch())
+                };
+                let gi = match gi {
+                    Ok(m) => m,
+                    Err(e) => return (classify(&e), false),
+                };
+                let mark = self.w.rec.len();
+                let r = (|| {
+                    let mut b = self.w.parties[&p].client.external_commit_builder()?;
+                    if resync { b = b.with_removal(old_leaf); }
+                    if let Some(t) = tree { b = b.with_tree_data(t); }
+                    b.build(gi)
+                })();
+                let evs = self.w.rec.since(mark);
+                match r {
+                    Ok((g, msg)) => {
+                        // C02: the joiner's path secrets go to exactly the copath resolutions of the new tree
+                        let mut sealed: Vec<Vec<u8>> = vec![];
+                        for (who, ev) in evs.iter() {
+                            if who != &p { continue; }
+                            if let Ev::HpkeSeal { pk, info, .. } = ev {
+                                if find(info, b"UpdatePathNode") { sealed.push(pk.clone()); }
+                            }
+                        }
+                        let exp_tree = out.get("newTree").and_then(|t| t.as_array()).cloned().unwrap_or_default();
+                        let exported = g.export_tree().into_owned();
+                        if want == "ok" { self.compare_tree(&p, exported.nodes(), &exp_tree, "tree of the external commit"); }
+                        let mut got_path: Vec<String> = sealed.iter().map(|b| self.w.keys.name_of(b)).collect();
+                        let mut exp_path: Vec<String> = vec![];
+                        for r in out.get("recips").and_then(|x| x.as_array()).cloned().unwrap_or_default() {
+                            for k in r.get("keys").and_then(|k| k.as_array()).cloned().unwrap_or_default() { exp_path.push(k.as_str().unwrap().to_string()); }
+                        }
+                        got_path.sort(); exp_path.sort();
+                        if want == "ok" && got_path != exp_path {
+                            viol!(self, ["C02"], "path-recipients", "external commit by {p}: path secrets sealed to {got_path:?}, specification says {exp_path:?}");
+                        }
+                        self.w.bump("commit_recipient_checks");
+                        let tree_bytes = g.export_tree().to_bytes().ok();
+                        self.w.parties.get_mut(&p).unwrap().group = Some(g);
+                        // a group joined through a Welcome and given up before it was ever written keeps its key package
+                        self.w.joined_with.remove(&p);
+                        self.w.commits.push(CommitEntry { by: p.clone(), welcomes: vec![], msg, tree: tree_bytes, base_epoch });
+                        epoch_changed = true;
+                        "ok".into()
+                    }
+                    Err(e) => classify(&e),
                 }
             }
             "SuccCreate" => {
@@ -1029,7 +1091,7 @@ impl Replayer {
                     }
                     self.w.bump("commit_recipient_checks");
                 }
-                self.w.commits.push(CommitEntry { by: p.to_string(), output: o, msg, tree, base_epoch });
+                self.w.commits.push(CommitEntry { by: p.to_string(), welcomes: o.welcome_messages.clone(), msg, tree, base_epoch });
                 "ok".into()
             }
         }
@@ -1147,7 +1209,7 @@ impl Replayer {
         let kpi = u(args, "kp") as usize;
         let my_ref = self.w.kps[kpi - 1].store_id.clone();
         let ce = &self.w.commits[n - 1];
-        let wmsg = match ce.output.welcome_messages.iter().find(|w| my_ref.is_empty() || w.welcome_key_package_references().iter().any(|r| r.to_vec() == my_ref)) {
+        let wmsg = match ce.welcomes.iter().find(|w| my_ref.is_empty() || w.welcome_key_package_references().iter().any(|r| r.to_vec() == my_ref)) {
             Some(w) => w.clone(),
             None => return,
         };
@@ -1175,7 +1237,7 @@ impl Replayer {
         // a Welcome of another commit (cross-epoch replay of the joiner's invitation)
         for (i, o) in self.w.commits.iter().enumerate() {
             if i + 1 == n { continue; }
-            for w in o.output.welcome_messages.iter().take(1) {
+            for w in o.welcomes.iter().take(1) {
                 if let Ok(ob) = w.to_bytes() {
                     let len = ob.len().min(wbytes.len());
                     if len > 16 {
